@@ -1694,7 +1694,7 @@ fn main() {
 
     // `salt` lets run-plan entries that get the same shard seeds (debug / release) generate different histories
     let mut rng = Rng::new(params.seed ^ 0xC06 ^ (params.get_u64("salt", 0) << 32));
-    let histories = params.n(1300, 40_000);
+    let histories = params.n(1300, 20_000);
     let len = params.get_u64("len", if params.thorough() { 80 } else { 40 }) as usize;
     // shrinking is bounded by a number of re-executions; none under Miri (one Table call costs ~1 s there,
     // and the native shards find and shrink the same signatures)
